@@ -1298,4 +1298,53 @@ def switch_bbox_epsg_axis_order""", 'C01.a'),
     M('M-C01c-infoquery-coord-swapped', 'mapproxy/layer.py', "return make_lin_transf((0, 0, self.size[0], self.size[1]), self.bbox)(self.pos)",
       "return make_lin_transf(self.bbox, (0, 0, self.size[0], self.size[1]))(self.pos)", 'C01.c'),
     M('M-C01d-tileoffset-axis', 'mapproxy/image/tile.py', "                i//self.tile_grid[0]*self.tile_size[1])", "                i//self.tile_grid[0]*self.tile_size[0])", 'C01.d|C03.a|C03.f'),
+    # ---------------------------------------------------------------- equivalents for the rules added after the seeded campaign
+    E('E-C05l-unpacked-name', COMPACT, """                bundle_files.add(self._get_bundle_fname_and_offset(t.coord)[0])
+                tile_coord = t.coord
+            if len(bundle_files) == 1:
+                return self._get_bundle(tile_coord).store_tiles(tiles, dimensions=dimensions)""",
+      """                fname, _ = self._get_bundle_fname_and_offset(t.coord)
+                bundle_files.add(fname)
+                tile_coord = t.coord
+            if len(bundle_files) == 1:
+                return self._get_bundle(tile_coord).store_tiles(tiles, dimensions=dimensions)""",
+      'shortcut key bound to a local first'),
+    E('E-C07g-lock-local', 'mapproxy/util/lock.py', """    def _try_lock(self):
+        return LockFile(self.lock_file, self.file_permissions)""", """    def _try_lock(self):
+        lock = LockFile(self.lock_file, self.file_permissions)
+        return lock""", 'acquired lock bound to a local before it is returned'),
+    E('E-C20f-tile-flag', 'mapproxy/cache/tile.py', """                if source.cacheable:
+                    self.cache.store_tile(tile)
+            else:""", """                if tile.cacheable:
+                    self.cache.store_tile(tile)
+            else:""", 'tile.cacheable was assigned from source.cacheable two statements earlier', props=['C20', 'C16', 'C13']),
+    E('E-C10g-rename-local', 'mapproxy/service/wms.py', """            limited_to = result.get('limited_to')
+            if limited_to:
+                coverage = load_limited_to(limited_to)
+            else:
+                coverage = None
+            return layers, coverage""", """            global_limit = result.get('limited_to')
+            if global_limit:
+                coverage = load_limited_to(global_limit)
+            else:
+                coverage = None
+            return layers, coverage""", 'local renamed'),
+    E('E-C15f-rename-loop-var', 'mapproxy/service/wms.py', """            for layer_task in async_pool.imap(self._render_layer, render_layers,
+                                              use_result_objects=True):
+                if layer_task.exception is None:
+                    layer, layer_img = layer_task.result
+                    if layer_img is not None:
+                        layer_merger.add(layer_img, layer.coverage)
+                else:
+                    ex = layer_task.exception
+                    async_pool.shutdown(True)""", """            for task_result in async_pool.imap(self._render_layer, render_layers,
+                                               use_result_objects=True):
+                if task_result.exception is None:
+                    layer, layer_img = task_result.result
+                    if layer_img is not None:
+                        layer_merger.add(layer_img, layer.coverage)
+                else:
+                    ex = task_result.exception
+                    async_pool.shutdown(True)""", 'loop variable renamed'),
+
 ]
